@@ -283,6 +283,18 @@ func genRand(w *hx.Writer, n int, seed int64) {
 			burstLen = 13 + r.Intn(nev-12)
 			burstAt = r.Intn(nev - burstLen + 1)
 		}
+		// up to three huge gaps (each a legal delta below 2^28, together more than 2^28 but the whole file stays below 2^30
+		// ticks): the distance between two events of one destination track may exceed what ONE delta of the source held
+		huge := map[int]bool{}
+		if nev >= 3 && r.Intn(6) == 0 {
+			for j := 0; j < 2+r.Intn(2); j++ {
+				huge[r.Intn(nev)] = true
+			}
+			feat["huge_gap"] = true
+			if gap > 1000 {
+				gap = 1000 // keep the whole file below 2^30 ticks (the domain of the check)
+			}
+		}
 		var evs []add
 		for i := 0; i < nev; i++ {
 			var d uint32
@@ -291,6 +303,9 @@ func genRand(w *hx.Writer, n int, seed int64) {
 				if d > 1000 {
 					feat["gap"] = true
 				}
+			}
+			if huge[i] {
+				d = uint32(200000000 + r.Intn(60000000))
 			}
 			var m []byte
 			if hx.Chance(r, pOther) {
